@@ -1250,7 +1250,7 @@ func ruleModCfgReal(w *World, r *RuleResult) {
 		r.check(good && n > 0, "Validate/"+f, w.Pos(validate.Pos()), fmt.Sprintf("success implies %s >= %d", f, min), fmt.Sprintf("Validate can succeed with %s < %d although the simulator divides by / allocates with it", f, min))
 	}
 	// constructors: Validate called and its error returned before the configuration is used
-	for _, ctor := range []*ssa.Function{c.a.Ctor, w.LibFunc("newCompiler")} {
+	for _, ctor := range []*ssa.Function{c.a.Ctor, Asm(w).NewCompiler} {
 		if ctor == nil {
 			continue
 		}
